@@ -2,7 +2,9 @@
 //!
 //! Sum of all individual transaction amounts in sequence transactions for reconciliation and validation.
 
-use super::swift_utils::{format_swift_amount_min_decimals, parse_amount_with_length};
+use super::swift_utils::{
+    fit_amount_length, format_swift_amount_min_decimals, parse_amount_with_length,
+};
 use crate::traits::SwiftField;
 use serde::{Deserialize, Serialize};
 
@@ -41,7 +43,7 @@ impl SwiftField for Field19 {
 
 /// Format amount for SWIFT output with comma as decimal separator
 fn format_swift_amount(amount: f64) -> String {
-    format_swift_amount_min_decimals(amount, 2)
+    fit_amount_length(format_swift_amount_min_decimals(amount, 2), 17)
 }
 
 #[cfg(test)]
